@@ -31,12 +31,11 @@ package cluster
 
 //@ func (*cluster.Conn).AddNode
 //@ props C20
-//@ requires [book] this.addresses != nil
+//@ requires [book] this.addresses != nil && this.conns != nil && forall j uint64 :: has(this.conns, j) ==> this.conns[j] != nil
 //@ ensures [listed] has(this.addresses, id)
-//@ ensures [address-of-new-member] !old(has(this.addresses, id)) ==> this.addresses[id] == address
-//@ ensures [existing-kept] old(has(this.addresses, id)) ==> this.addresses[id] == old(this.addresses[id])
+//@ ensures [C20 announced-address] this.addresses[id] == address
 //@ ensures [others] forall j uint64 :: j != id ==> has(this.addresses, j) == old(has(this.addresses, j)) && this.addresses[j] == old(this.addresses[j])
-//@ modifies map(this.addresses)
+//@ modifies map(this.addresses), map(this.conns)
 
 //@ func (*cluster.Conn).RemoveNode
 //@ props C20
